@@ -339,6 +339,25 @@ Theorem C10_symtab_complete : forall vaddr0 syms e,
 Proof. exact load_symtab_complete. Qed.
 Print Assumptions C10_symtab_complete.
 
+(* ... also for load_symtab as built (generated flag: prev_sym_value assigned only under
+   `if (load_symbol(...))`, i.e. an entry is skipped as an alias only of the last ACCEPTED one) ... *)
+Theorem C10_symtab_complete_as_built : forall vaddr0 syms e,
+  (forall e, In e syms -> loadable e = true -> 0 <= vaddr0 <= e_value e /\ e_value e < W64) ->
+  In e syms -> loadable e = true ->
+  exists s, In s (load_symtab_gen symtab_prev_only_accepted true 0 vaddr0 syms) /\ s_addr s = e_value e - vaddr0.
+Proof. exact load_symtab_complete_as_built. Qed.
+Print Assumptions C10_symtab_complete_as_built.
+
+(* ... the restriction to the last accepted entry is essential: with "previous ELF entry" a function
+   that directly follows a label (NOTYPE, size 0) of the same value is lost *)
+Theorem C10_symtab_alias_of_rejected_refuted :
+  let syms := [mkESym 4198400 0 0 0 14 [108;97;98;101;108]; mkESym 4198400 16 2 0 14 [104;101;108;112;101;114];
+               mkESym 4198416 8 2 1 14 [109;97;105;110]] in
+  load_symtab_gen false true 0 4194304 syms = [mkSym 4112 8 84 [109;97;105;110]] /\
+  load_symtab_gen true true 0 4194304 syms = [mkSym 4096 16 116 [104;101;108;112;101;114]; mkSym 4112 8 84 [109;97;105;110]].
+Proof. exact alias_of_rejected_refuted. Qed.
+Print Assumptions C10_symtab_alias_of_rejected_refuted.
+
 (* ... and the table holds every address once, in increasing order (what bsearch needs) *)
 Theorem C10_symtab_strictly_sorted : forall adj offset0 vaddr0 syms,
   strictly_sorted (load_symtab adj offset0 vaddr0 syms) = true.
